@@ -127,6 +127,13 @@ func (e *Engine) lookupLocal(fr *Frame, name string) (*Ptr, types.Type, bool) {
 		}
 	}
 	if best == nil {
+		// name_N: the N-th variable called `name` in the function (block order) - tells the hidden `rangeindex`
+		// variables of nested / consecutive range loops apart
+		if al := e.nthLocal(fr, name); al != nil {
+			best = al
+		}
+	}
+	if best == nil {
 		return nil, nil, false
 	}
 	p := fr.regs[best].(*Ptr)
@@ -311,23 +318,7 @@ func (e *Engine) evalIdent(env *Env, name string) (TV, error) {
 	}
 	if env.fr != nil {
 		if g, ok := env.fr.ghosts[name]; ok {
-			// declared type of the ghost (needed for field selection / indexing on ghost values)
-			if c := env.fr.contract; c != nil {
-				for _, gd := range c.Ghosts {
-					if gd.Name == name {
-						genv := env
-						if genv.pkg == nil && env.fr.fn.Pkg != nil {
-							ce := *env
-							ce.pkg = env.fr.fn.Pkg.Pkg
-							genv = &ce
-						}
-						if ty, _, err := e.resolveType(genv, gd.Type); err == nil && ty != nil {
-							return TV{g, ty}, nil
-						}
-					}
-				}
-			}
-			return TV{g, nil}, nil
+			return TV{g, e.ghostDeclType(env, name)}, nil
 		}
 		// parameters
 		if env.entryParams || env.inOld {
@@ -805,6 +796,22 @@ func (e *Engine) resolveType(env *Env, ts string) (types.Type, string, error) {
 	if t, ok := basicTypeNames[ts]; ok {
 		return t, e.tm.SortOf(t), nil
 	}
+	if strings.HasPrefix(ts, "[") && !strings.HasPrefix(ts, "[]") {
+		// array type [N]T
+		if k := strings.Index(ts, "]"); k > 1 {
+			var n int64
+			if _, err := fmt.Sscanf(ts[1:k], "%d", &n); err == nil && n >= 0 {
+				el, _, err := e.resolveType(env, ts[k+1:])
+				if err != nil {
+					return nil, "", err
+				}
+				if el != nil {
+					t := types.NewArray(el, n)
+					return t, e.tm.SortOf(t), nil
+				}
+			}
+		}
+	}
 	if strings.HasPrefix(ts, "[]") {
 		el, _, err := e.resolveType(env, ts[2:])
 		if err != nil {
@@ -1165,6 +1172,9 @@ func (e *Engine) evalCall(env *Env, n *ECall) (TV, error) {
 		return tv, err
 	}
 	if tv, handled, err := e.opsSpec(env, n.Fun, n.Args); handled {
+		return tv, err
+	}
+	if tv, handled, err := e.ghostSpec(env, n.Fun, n.Args); handled {
 		return tv, err
 	}
 	if n.Fun == "as" && len(n.Args) == 2 {
